@@ -280,6 +280,9 @@ def c16(pid, tier, seed):
             MsgShapes=("tab", "a"), Tpls=("TB", "M"), TabWs=(8, 2), Fins=("AndLeave",)),
         fam("tabs_restyle", conf="single", W=40, H=6, D=4 if q else 5, BarOps=("set_tab_width", "restyle", "set_style", "set_message", "tick"),
             MsgShapes=("tab",), Tpls=("TM", "KC", "M"), TabWs=(8, 2), Fins=("AndLeave",)),
+        # two literal parts with a tab each around a placeholder; a tab width larger than the terminal is wide (custom key, message, literal alike)
+        fam("tabs_two_literals", conf="single", W=40, H=6, D=3 if q else 4, BarOps=("set_tab_width", "set_style", "set_message", "tick"), MsgShapes=("tab", "a"), Tpls=("TT", "TM"), TabWs=(8, 2), Fins=("AndLeave",)),
+        fam("tabs_narrow", W=5, H=12, D=3 if q else 4, BarOps=("set_tab_width", "set_message", "tick"), MsgShapes=("tab", "a"), Tpls=("KM", "KC", "TM"), TabWs=(8,), Fins=("AndLeave",), Base=0),
         # the texts given to the builder before / after the tab width (with_message, with_prefix, with_tab_width, with_style in every order)
         fam("tabs_builder", conf="single", W=40, H=6, D=3 if q else 4, BarOps=("tick", "set_tab_width", "set_message", "finish_with_message"), MsgShapes=("tab",), Tpls=("PM", "TM"),
             TabWs=(8, 0, 1, 4), Fins=("AndLeave", "WithMessage"), M0="tab"),
@@ -353,6 +356,9 @@ def c06(pid, tier, seed):
             MsgShapes=("a", "W1"), TextShapes=("T",), Tpls=("MnC",), Fins=("AndLeave",), Tgt="hidden", M0="id", shards=12),
         fam("shown_multi_then_hidden", W=6, H=12, Multi=True, MaxBars=2, Pre=2, D=5 if q else 6, BarOps=("tick", "set_message", "println", "finish", "drop", "is_hidden"), MpOps=("mp_set_target", "mp_println", "mp_clear"),
             MsgShapes=("a",), TextShapes=("T",), Tpls=("MnC",), Fins=("AndLeave",), M0="id", shards=12),
+        # a member of the visible MultiProgress added to another MultiProgress whose target is hidden: silent from then on, the first one repaints without it
+        fam("moved_to_hidden_multi", W=10, H=8, Multi=True, MaxBars=2, Pre=2, D=5 if q else 6, BarOps=("tick", "inc", "set_message", "println", "finish", "drop", "to_hidden_mp"),
+            MpOps=("mp_println",), MsgShapes=("a",), TextShapes=("T",), Tpls=("MnC",), Fins=("AndLeave",), M0="id", shards=12),
         fam("removed_member", W=10, H=8, Multi=True, MaxBars=2, Pre=2, D=5 if q else 7, BarOps=("tick", "inc", "set_message", "println", "finish", "finish_and_clear", "drop", "mp_remove"),
             MpOps=(), MsgShapes=("a",), TextShapes=("T",), Tpls=("MnC",), Fins=("AndLeave",), M0="id", shards=12),
     ]
@@ -372,6 +378,11 @@ def c18(pid, tier, seed):
         # faults while a member is unlinked / moved (set_draw_target, add of an existing member, remove: each repaints the MultiProgress)
         fam("faults_multi_relink", W=6, H=8, Multi=True, MaxBars=2, Pre=2, D=5 if q else 6, BarOps=("tick", "set_target", "readd", "mp_remove", "finish", "drop"),
             MpOps=("mp_println",), TextShapes=("T",), Tpls=("M",), Fins=("AndLeave",), Faults=(1, 2, 3, 5), M0="id", shards=12),
+        # a failure during a paint requested through a member, then another member placed relative to it (insert_before / insert_after look the anchor up)
+        fam("faults_multi_insert", W=6, H=8, Multi=True, MaxBars=3, Pre=2, D=5 if q else 6, BarOps=("tick", "set_message", "finish"), MpOps=("insert_rel", "mp_println"),
+            MsgShapes=("a",), TextShapes=("T",), Tpls=("M",), Fins=("AndLeave",), Faults=(1, 2, 3), M0="id", shards=12),
+        # a terminal that keeps failing under eighty forced draws in a row
+        fam("faults_forced_many", W=6, H=5, D=3, BarOps=("fburst", "tick", "finish", "set_message"), MsgShapes=("a",), Tpls=("M",), Fins=("AndLeave",), Faults=(1, 2), M0="id"),
         # bottom alignment: the filler lines written when the region shrinks are terminal operations like any other
         fam("faults_multi_bottom", W=6, H=8, Multi=True, MaxBars=2, Pre=2, D=5 if q else 6, BarOps=("tick", "finish_and_clear", "mp_remove", "drop"),
             MpOps=("mp_println", "mp_clear"), TextShapes=("T",), Tpls=("M",), Fins=("AndClear",), Faults=(1, 2, 3, 4, 5, 6, 7, 8), M0="id", Align="bottom", shards=12),
